@@ -180,6 +180,10 @@ def make_replay(pid, name, ob, res, contract, reg, mod):
                   'model': {k: v for k, v in list((res.get('model') or {}).items())[:60]}}
     custom = getattr(mod, 'REPLAY', {}).get(contract.name)
     try:
+        if getattr(contract, 'crosscheck', True) is False and not getattr(contract, 'native_gen', None):
+            # the contract is stated over an abstraction the native judge cannot build or evaluate (ids for names, abstract
+            # maps, ghost layouts without a generator): no native replay is attempted, the solver's counter-model is the evidence
+            raise Unsupported('contract %s is not natively replayable (crosscheck=False)' % contract.name)
         job = job_of(contract, reg, mod, pid, name)
         job['solver_output'] = solver_out
         try:
